@@ -70,7 +70,9 @@ def base_record(opts):
     qfields = [
         {"name": "a", "type": "A", "args": [], "desc": d("field a"), "dep": None},
         {"name": "e", "type": "Int", "desc": None, "dep": dep("old e"), "args": (
-            [{"name": "k", "type": dtype, "default": (dlit, dval) if dlit is not None else None, "desc": d("arg k")}]
+            [{"name": "before", "type": "Int", "default": None, "desc": None},          # a PARTLY documented argument list: undocumented, documented, undocumented with a default
+             {"name": "k", "type": dtype, "default": (dlit, dval) if dlit is not None else None, "desc": d("arg k")},
+             {"name": "after", "type": "String", "default": ('"z"', "z"), "desc": None}]
             if (dtype not in ("Color", "In") or (dtype == "Color" and has(2)) or (dtype == "In" and has(3))) else [])},
         {"name": "s", "type": "String!", "args": [{"name": "x", "type": "[String!]!", "default": None, "desc": None}], "desc": None, "dep": None},
     ]
@@ -118,7 +120,8 @@ def base_record(opts):
         qfields.append({"name": "d", "type": "Date", "args": [], "desc": None, "dep": None})
     if has(5):
         rec["directives"]["tag"] = {"desc": d("a tag"), "locations": ["FIELD_DEFINITION", "OBJECT"],
-                                    "args": [{"name": "v", "type": "Int", "default": ("1", 1), "desc": None}, {"name": "w", "type": "String!", "default": None, "desc": None}]}
+                                    "args": [{"name": "v", "type": "Int", "default": ("1", 1), "desc": None}, {"name": "w", "type": "String!", "default": None, "desc": d("the w")},
+                                             {"name": "u", "type": "[Int]", "default": None, "desc": None}]}
         rec["order"].append("@tag")
     # types that no field refers to: one that is only known as an implementation of the interface, one that nothing refers to at all
     if has(0):
